@@ -1,5 +1,5 @@
 """C18 - concurrent use: snapshot-isolated reads and no data races.
-Proof: coq/theories/Properties/C18.v (Db/Mvcc.v for all interleavings; Db/Access.v + the table
+Proof: coq/theories/Properties/C18.v, C18Table.v (Db/Mvcc.v for all interleavings; Db/Access.v + the table
 Gen/GenAccess.v regenerated from the Go source by translators/access on every run).
 Correspondence: N reader goroutines (parse + symbol resolution + index / link / back-reference reads +
 filter queries, every result tagged with the version marker read in the same transaction) against one
@@ -14,7 +14,7 @@ import re
 import vlib
 
 PID = "C18"
-FILES = ["theories/Properties/C18.v", "theories/Examples/C18Examples.v"]
+FILES = ["theories/Properties/C18.v", "theories/Examples/C18Examples.v", "theories/Properties/C18Table.v"]
 MOD = "github.com/openziti/storage/"
 
 
